@@ -1747,6 +1747,54 @@ def rule_solve_does_not_assert_on_its_arguments(eng, rep, rule="C07-15.solve-rep
     rep.ok(rule, eng.where(solve), "%d assert statement(s) in solve inspected" % nassert, nontrivial=bool(nassert))
 
 
+# --------------------------------------------------------------------------------------------- C07-16
+def rule_float_to_int_handlers_are_two_sided(eng, rep, rule="C07-16.a-handler-for-nan-in-a-float-to-int-conversion-also-covers-infinity"):
+    """ceil() / int() / floor() / round() of a float raise ValueError for NaN and OverflowError for +-inf.  Where the code already guards such a conversion with
+    `except ValueError` it states the belief that the quotient inside can be non-finite; the same quotient is infinite when its denominator is zero (func_tol = 0 for
+    func_tol.criticality_measure = 0 or func_tol.tr_step = 1, both inside their documented ranges), so a handler that names only ValueError lets OverflowError escape
+    from solve (contradiction / one-sided handling rule)."""
+    reach = eng.reachable_from_solve()
+    CONV = ("ceil", "floor", "int", "round", "trunc")
+    ntry = 0
+    for fid in sorted(reach):
+        fi = eng.prog.functions[fid]
+        if fi.is_lambda:
+            continue
+        for node in eng.prog.own_nodes(fi):
+            if not isinstance(node, ast.Try):
+                continue
+            convs = [c for st in node.body for c in ast.walk(st) if isinstance(c, ast.Call) and ekey(c.func).split(".")[-1] in CONV and c.args
+                     and any(isinstance(x, ast.BinOp) and isinstance(x.op, ast.Div) for x in ast.walk(c.args[0]))]
+            if not convs:
+                continue
+            caught = set()
+            for h in node.handlers:
+                if h.type is None:
+                    caught |= {"ValueError", "OverflowError"}
+                else:
+                    for t in (h.type.elts if isinstance(h.type, ast.Tuple) else [h.type]):
+                        nm = ekey(t).split(".")[-1]
+                        caught.add(nm)
+                        if nm in ("Exception", "BaseException"):
+                            caught |= {"ValueError", "OverflowError"}
+                        if nm == "ArithmeticError":
+                            caught.add("OverflowError")
+            if "ValueError" not in caught and "OverflowError" not in caught:
+                continue
+            ntry += 1
+            site = eng.where(fi, convs[0])
+            if "ValueError" in caught and "OverflowError" not in caught:
+                rep.bad(rule, site, "%s|handler-misses-infinity|%s" % (fid, short(convs[0].func, 10)),
+                        "`%s` is guarded against a NaN quotient (except ValueError) but not against an infinite one: a zero denominator gives inf and OverflowError escapes from solve"
+                        % short(convs[0], 60))
+            elif "OverflowError" in caught and "ValueError" not in caught:
+                rep.bad(rule, site, "%s|handler-misses-nan|%s" % (fid, short(convs[0].func, 10)),
+                        "`%s` is guarded against an infinite quotient (except OverflowError) but not against NaN (ValueError)" % short(convs[0], 60))
+            else:
+                rep.ok(rule, site, "`%s`: both NaN (ValueError) and infinity (OverflowError) are handled" % short(convs[0], 50))
+    rep.require_count(rule, "guarded float-to-int conversions of a quotient", ntry, 1)
+
+
 def run(eng, rep):
     rep.explain("C07: call conformance of every resolved internal call (T10); shape of the graceful input-error path in solve (T2); "
                 "guard present for each documented invalid-argument class (frozen table, matched on normalised conditions); "
@@ -1773,5 +1821,6 @@ def run(eng, rep):
     rep.guarded(rule_definite_assignment, eng, rep)
     rep.guarded(rule_no_python_division_by_a_vanishing_root, eng, rep)
     rep.guarded(rule_solve_does_not_assert_on_its_arguments, eng, rep)
+    rep.guarded(rule_float_to_int_handlers_are_two_sided, eng, rep)
     from . import c20
     c20.rule_str_never_formats_none(eng, rep, rule="C07-8.printing")
